@@ -169,6 +169,13 @@ def run(pid, tier, ev=None, vd=None, finish=True, want_label=None):
             ev.sample({k: e[k] for k in ("ev", "s", "t", "exit", "nplan", "nconf") if k in e})
         ev.assumptions += ["archive bytes restored exactly as the real code wrote them, except the 64-hex pair id substituted per worker directory",
                            "HOME, HOSTNAME pinned; contents chosen so that id order = BLAKE3 order, content 1's hash has a leading 0 nibble"]
+    except bg.NoArchive as e:
+        # the harness pre-loads archives under the name a real run chose; a completed run that records nothing is
+        # itself C06's "the recorded common state equals exactly that tree" failing
+        if (want_label or pid) == "C06":
+            vd.violation("no-archive-recorded", str(e), {"kind": "bisync-bootstrap", "what": str(e)})
+        else:
+            raise vlib.ToolError("bisync records no common state, the graph cannot be explored: " + str(e))
     finally:
         shutil.rmtree(work, ignore_errors=True)
     return vd.finish() if finish else 0
